@@ -197,6 +197,25 @@ func (k *DHKEM) DeriveKeyPair(ikm []byte) (sk, pk []byte, err error) {
 	return nil, nil, ErrDeriveKey
 }
 
+// DeriveCounter reports which candidate (RFC 9180 section 7.1.3 counter) the
+// derivation of ikm accepts for a NIST-curve KEM (0 for the others).
+func (k *DHKEM) DeriveCounter(ikm []byte) int {
+	if k.curve == nil {
+		return 0
+	}
+	dkpPrk := LabeledExtract(k.hash, k.suiteID(), nil, "dkp_prk", ikm)
+	order := k.curve.Params().N
+	for counter := 0; counter <= 255; counter++ {
+		b := LabeledExpand(k.hash, k.suiteID(), dkpPrk, "candidate", []byte{byte(counter)}, k.Nsk)
+		b[0] &= k.bitmask
+		v := new(big.Int).SetBytes(b)
+		if v.Sign() != 0 && v.Cmp(order) < 0 {
+			return counter
+		}
+	}
+	return 256
+}
+
 // PublicKey computes pk(skX) in serialized form.
 func (k *DHKEM) PublicKey(sk []byte) ([]byte, error) {
 	if len(sk) != k.Nsk {
